@@ -73,15 +73,16 @@ func (p *Ptr) extend(el PathEl) *Ptr {
 }
 
 type AllocInfo struct {
-	ID     int
-	Ty     types.Type // pointee type
-	Instr  *ssa.Alloc
-	Name   string
-	Weak   bool // contents no longer tracked (reads give arbitrary values)
-	Aliased bool // a pointer to it was stored somewhere or handed to a callee
-	MergedInto int // id+1 of the merge object that replaced it at a control-flow join (0: none)
-	GhostSort string // ghost cell (e.g. visited set of a map iteration): SMT sort of its content
-	Published bool // array published to the element heap via a Slice instruction
+	ID         int
+	Ty         types.Type // pointee type
+	Instr      *ssa.Alloc
+	Name       string
+	Weak       bool         // contents no longer tracked (reads give arbitrary values)
+	Aliased    bool         // a pointer to it was stored somewhere or handed to a callee
+	MergedInto int          // id+1 of the merge object that replaced it at a control-flow join (0: none)
+	Embedded   map[int]bool // locals whose address was written into this object's (possibly materialised) content
+	GhostSort  string       // ghost cell (e.g. visited set of a map iteration): SMT sort of its content
+	Published  bool         // array published to the element heap via a Slice instruction
 }
 
 type State struct {
@@ -90,12 +91,17 @@ type State struct {
 	heap   map[string]string
 	epoch  int
 	leaked map[int]bool // locals whose address escaped on the paths leading here
+	pub    map[int]*Val // content of a local as last copied into the heap (nil entry: not current)
 }
 
 func (s *State) clone() *State {
 	n := &State{reach: s.reach, epoch: s.epoch, cells: make(map[int]*Val, len(s.cells)), heap: make(map[string]string, len(s.heap)), leaked: make(map[int]bool, len(s.leaked))}
 	for k := range s.leaked {
 		n.leaked[k] = true
+	}
+	n.pub = make(map[int]*Val, len(s.pub))
+	for k, v := range s.pub {
+		n.pub[k] = v
 	}
 	for k, v := range s.cells {
 		n.cells[k] = v
